@@ -9,6 +9,21 @@ E2 = "explicit-state breadth-first search over operation sequences on the real o
 E1 = "stateless model checking of the real code under a controlled cooperative scheduler: every interleaving of the atomic/lock/channel steps of a small multi-goroutine harness (iterative preemption bounding, happens-before state matching), linearizability oracle + vector-clock race detection on every execution"
 
 claimed = {
+ "C01": dict(engine="E1 sched", technique=E1, design="6 C01",
+   text="Stateless model checking of the real ringz/sync.go (atomics, Gosched and every plain field/element access instrumented at check time): for capacities 2 and 4, every fill level, five rotations (two with the 32-bit counter wrap inside the concurrent window) and 8 thread programs (push|push|pop, push,push|pop,pop, push|pop|push,pop, push|pop|observer, pop|pop|push, three pushers, three poppers, PushWait/PopWait spinning and zero-wait pairs) ALL schedules are enumerated without a preemption bound (2 pushers x2 + popper x2 on capacity 2: bound 3 quick, unbounded thorough). Every execution: linearizability to FIFO(Cap) with the property's relaxations, drain epilogue, exact Len/IsEmpty/IsFull at quiescence, progress of pushers-only/poppers-only, vector-clock data-race detection, deadlock/livelock/panic; 0<=Len<=Cap probed at every reachable state with all threads frozen.",
+   note="Trusted: the shim's model of sync/atomic (sequentially consistent, one step per operation), 128-bit state hashing, the instrumenter (validated by running golib's own tests through the overlay). Outside: >3 goroutines, >2 operations each, capacity >4, positive wait durations (real ticker)."),
+ "C04": dict(engine="E2 space", technique=E2, design="6 C04",
+   text="Explicit-state BFS to the fix-point on the real heapz.Heap (with live, stale and foreign *Element handles), heapz.Slice and the generic Init/Push/Pop/Remove/Fix functions: size cap 6 (7 thorough), values {0,1,2} (ties everywhere), comparators < and > (plus a tie-making strict weak order on thorough), all 121 start slices of length <= 4; every transition compared with a sorted-multiset + handle-table model, every state with Len, Peek, Index() of every handle, heap order of Slice.Values / the container, PopAll sortedness.",
+   note="Trusted: reflective canonical dump; the model follows the implementation's tie-breaking. Outside: sizes > 7, comparators that are not strict weak orders, nil handles."),
+ "C11": dict(engine="E1 sched", technique=E1, design="6 C11",
+   text="Stateless model checking of the real listz/sync_list.go (atomics incl. unsafe.Pointer operations, Gosched and plain node accesses instrumented at check time): initial content 0..2 x 9 thread programs (push|push|pop, push,push|pop,pop, push|pop|Len,Len, push,pop|push,pop, push|pop|push,pop, three pushers, three poppers, PopWait(0), 2x2 pushers + popper x2) plus PopWait(-1) consumers; ALL schedules without a preemption bound (the 3x2 program: bound 3 quick, unbounded thorough), spinning pushers scheduled by the fair-yield rule. Every execution: linearizability to an unbounded FIFO with the property's relaxations, drain epilogue, exact Len at quiescence, vector-clock data-race detection, deadlock/livelock (Push always completes)/panic; Len()>=0 probed at every reachable state, Len()>=number of poppable values by a destructive probe on a re-execution of every reachable state.",
+   note="Trusted: as C01. Outside: >3 goroutines, >2 operations each, positive PopWait durations."),
+ "C13": dict(engine="E2 space", technique=E2, design="6 C13",
+   text="Explicit-state BFS to the fix-point: two real DLists run in lock-step with two container/list lists (differential oracle) over Push/Insert/Move/Remove/PushBackDList/PushFrontDList(self or other)/node variants/Init with live, removed and foreign handles, size cap 5 (6 thorough), zero-value and constructed start states; SList against a slice model over Get/Remove/InsertAt/InsertNodeAt/Swap for indices -1..len+1 and the front/back operations, cap 6 (8). Every state: both traversals, Len, All, Next/Prev of every handle.",
+   note="Trusted: container/list as oracle; reflective canonical dump with element values renamed by first appearance (generic code cannot inspect them). Outside: lists longer than the cap; handles that were in the list before Init (container/list itself misbehaves there, nothing is claimed)."),
+ "C14": dict(engine="E3 enum + E2 space", technique=E3 + "; FlexSlice: " + E2, design="6 C14",
+   text="Bounded-exhaustive enumeration: Diff/Intersect/Unique/UniqueByKey/Filter and their InPlace variants on all slices over {0,1,2} of length <= 5 x <= 3 (thorough {0..3}, <= 6 x <= 4), nil vs empty, 7 dst aliasing layouts; Chunk/ChunkProcess for sizes -1..len+2 with an error injected at every callback index; SubSlice/Copy/Remove/Index/Equal for every argument in -2..len+2; freshness of Copy/Values in both directions. FlexSlice: BFS to the fix-point over Append/Prepend(0-3 values)/Get/Remove/Pop/Shift/SubSlice with the state key (len, cap, contents) so that growth, both Prepend paths and the shrink threshold are crossed (size cap 20, thorough 48), from the zero value and from every make([]T,l,c) root.",
+   note="Trusted: definitions written as linear scans. Outside: longer slices, element types other than int."),
  "C10": dict(engine="E2 space", technique=E2, design="6 C10",
    text="Explicit-state model checking on the real objects: Ring — BFS to the fix-point from capacities 1..4 over Push/Pop/Peek/PushWithExpand/Recap(-1..9)/Init, the canonical key holds head/tail/cap so every rotation x fill level at the moment of Recap/PushWithExpand is a distinct visited state; SyncRing (single goroutine) — Cap() for requested 1..1025 and 2^k-1,2^k,2^k+1 up to 2^20, and BFS over Push/Pop to depth 3*cap for capacities 2,4,8 from start states whose 32-bit counters were teleported to every position within 2*cap of 2^32 (wrap inside the window) and to 2^31+-1; every transition compared with a bounded FIFO model, every state with Len/IsEmpty/IsFull/Cap/Peek and a full drain. Thorough additionally performs 2^32+64 honest push/pop pairs.",
    note="Trusted: the reflective canonical dump (isomorphic private graphs have identical futures); the counter teleport, itself validated against honest stepping (k <= 4*cap every run, 2^32+65 on thorough). Outside: capacities beyond 16 (Ring) / 8 (SyncRing behaviour), zero-value Ring."),
